@@ -1350,8 +1350,27 @@ class AggregateBase(UnitsManaged, Saveable, OpenSystem):
             Approximation used in the generation of vibrational state.
 
         """
+        # the building routine works in internal units; the units of 
+        # the caller are restored whatever happens below
         manager = Manager()
+        caller_units = manager.get_current_units("energy")
         manager.set_current_units("energy", "int")
+        try:
+            self._build_in_internal_units(mult=mult,
+                                sbi_for_higher_ex=sbi_for_higher_ex,
+                                vibgen_approx=vibgen_approx, Nvib=Nvib,
+                                vibenergy_cutoff=vibenergy_cutoff,
+                                fem_full=fem_full, el_blocks=el_blocks)
+        finally:
+            manager.set_current_units("energy", caller_units)
+
+
+    def _build_in_internal_units(self, mult=1, sbi_for_higher_ex=False,
+              vibgen_approx=None, Nvib=None, vibenergy_cutoff=None,
+              fem_full=False, el_blocks=False):
+        """The body of the build() method; energy units must be internal
+
+        """
 
         # maximum multiplicity of excitons handled by this aggregate
         self.mult = mult
@@ -1724,8 +1743,6 @@ class AggregateBase(UnitsManaged, Saveable, OpenSystem):
             pass
 
         self._built = True
-
-        manager.unset_current_units("energy")
 
 
     def rebuild(self, mult=1, sbi_for_higher_ex=False,
